@@ -225,19 +225,84 @@ def composition_clause(model, rep, funcs):
 def shim_clause(model, rep, funcs):
     """The arity shims decide how many leading arguments (scale / image, scale) the user function takes by counting *all* its positional
     parameters, with or without defaults: a `scale=1.0` parameter still receives the pipeline's scale."""
-    cnt = "$n = sum(1 for $p in inspect.signature(func).parameters.values() if $p.kind in ($p.POSITIONAL_ONLY, $p.POSITIONAL_OR_KEYWORD))"
-    for name, pats in (("_assert_1_arg", [cnt, "if $n == 0:\n    $out = lambda $x: func()\n    ...\nelse:\n    return func"]),
-                       ("_assert_2_args", [cnt, "if $n == 0:\n    $out = lambda $x0, $x1: func()\nelif $n == 1:\n    $out = lambda $x0, $x1: func($x0)\nelse:\n    return func",
-                                           "return $out"])):
+    # (1) what is counted: the parameters of inspect.signature(func) whose kind is POSITIONAL_ONLY or POSITIONAL_OR_KEYWORD - exactly these two kinds,
+    #     with or without default - wherever the count is computed (in the shim or in a private helper the shims share)
+    from ..domains.consts import ConstDomain
+    from ..absint import LambdaRef
+    curry_fns = [f_ for f_ in model.all_functions if f_.module.relpath == "acryo/pipe/_curry.py"]
+    counters = []
+    for f_ in curry_fns:
+        for n in ast.walk(f_.node):
+            if isinstance(n, (ast.GeneratorExp, ast.ListComp)) and len(n.generators) == 1 and n.generators[0].ifs:
+                g = n.generators[0]
+                it_src = norm_src(Matcher(f_).expr(g.iter))
+                if "inspect.signature(func).parameters" not in it_src.replace("signature(func)", "inspect.signature(func)").replace("inspect.inspect.", "inspect."):
+                    continue
+                kinds = set()
+                for c in g.ifs:
+                    cx = Matcher(f_).expr(c)
+                    if isinstance(cx, ast.Compare) and len(cx.ops) == 1 and isinstance(cx.ops[0], ast.In) and norm_src(cx.left).endswith(".kind") and \
+                            isinstance(cx.comparators[0], (ast.Tuple, ast.List, ast.Set)):
+                        kinds |= {norm_src(e).rsplit(".", 1)[-1] for e in cx.comparators[0].elts}
+                counters.append((f_, n, kinds))
+    okc = bool(counters) and all(k == {"POSITIONAL_ONLY", "POSITIONAL_OR_KEYWORD"} for _, _, k in counters)
+    rep.instance("CURRY", "acryo/pipe/_curry.py positional-parameter count")
+    rep.ob("CURRY", "acryo/pipe/_curry.py::positional count", "the arity shims count every positional parameter of the user function (POSITIONAL_ONLY and "
+           "POSITIONAL_OR_KEYWORD, defaults included)", okc, f"counted kinds: {[sorted(k) for _, _, k in counters]}", clause="3 currying", stmt="positional count kinds")
+    count_names = {f_.name for f_, _, _ in counters if f_.name not in ("_assert_1_arg", "_assert_2_args")}
+    # (2) which shim is returned for which count: representative evaluation with the count bound to 0, 1, 2, 3
+    for name, lam_params, want in (("_assert_1_arg", 1, {0: "func()", 1: "<func>", 2: "<func>", 3: "<func>"}),
+                                   ("_assert_2_args", 2, {0: "func()", 1: "func({0})", 2: "<func>", 3: "<func>"})):
         try:
             f = model.func("acryo/pipe/_curry.py::" + name)
         except Exception:
             rep.error(f"anchor vanished: acryo/pipe/_curry.py::{name}")
             continue
         rep.instance("CURRY", f.loc())
-        ok, why = Matcher(f).all_of(pats)
-        rep.ob("CURRY", f.anchor, "the arity shim counts every positional parameter of the user function (defaults included) and forwards scale / (image, scale) to "
-               "functions that declare them", ok, why, node=f.node, fn=f, clause="3 currying", stmt=f"def {name}")
+        ok, why = True, []
+        for n_, expect in want.items():
+            class CD(ConstDomain):
+                def call_external(self, interp, nm, recv, args, kwargs, node, _n=n_):
+                    if (nm or "").rsplit(".", 1)[-1] in ("sum", "len"):
+                        return Const(_n)
+                    return super().call_external(interp, nm, recv, args, kwargs, node)
+
+                def call_repo(self, interp, funcs_, bound, args, kwargs, node, _n=n_):
+                    if {x.name for x in funcs_} <= count_names and count_names:
+                        return Const(_n)
+                    return NotImplemented
+
+                def compare(self, interp, node, vals):
+                    a_, b_ = vals if len(vals) == 2 else (None, None)
+                    if isinstance(a_, Const) and isinstance(b_, Const) and isinstance(a_.value, int) and isinstance(b_.value, int) and len(node.ops) == 1:
+                        import operator as _op
+                        tbl = {ast.Lt: _op.lt, ast.LtE: _op.le, ast.Gt: _op.gt, ast.GtE: _op.ge}
+                        if type(node.ops[0]) in tbl:
+                            return Const(tbl[type(node.ops[0])](a_.value, b_.value))
+                    return super().compare(interp, node, vals)
+
+            it_ = Interp(model, CD(), depth=0)
+            rets = []
+            it_.on_return.append(lambda interp, fn_, st, val, env=None, _f=f: rets.append(val) if fn_ is _f else None)
+            try:
+                it_.run(f, args={"func": Const("<func>")})
+            except Exception as e:
+                ok, why = None, [f"count {n_}: not evaluable ({e!r})"]
+                break
+            got = None
+            if len(rets) == 1:
+                v = rets[0]
+                if isinstance(v, Const) and v.value == "<func>":
+                    got = "<func>"
+                elif isinstance(v, LambdaRef) and len(v.node.args.args) == lam_params:
+                    got = norm_src(v.node.body)
+                    expect = expect.format(*[a.arg for a in v.node.args.args])
+            if got != expect:
+                ok = False
+                why.append(f"a user function with {n_} positional parameter(s) is wrapped as `{got}` (returns evaluated: {len(rets)}), required `{expect}`")
+        rep.ob("CURRY", f.anchor, "the arity shim forwards scale / (image, scale) to functions that declare them: 0 parameters -> called without arguments, "
+               "1 -> the first argument only (two-argument shim), otherwise the function itself", ok, "; ".join(why), node=f.node, fn=f, clause="3 currying",
+               stmt=f"def {name}")
 
 
 def curry_clause(model, rep, funcs):
